@@ -106,7 +106,26 @@ def opOf (j : Json) : R (FSA.Op Vx String) := do
   | "hasedge" => return .hasEdge (← vxOf (← field j "t")) (← vxOf (← field j "h"))
   | _ => throw "unknown op kind"
 
-def stepOf (s : A) (j : Json) : R A := do lift (s.applyOp (← opOf j))
+/-- `run` of a one-operation history is `applyOp` -/
+theorem run_single {V L : Type} [DecidableEq V] [DecidableEq L] (s : FSA V L) (op : FSA.Op V L) :
+    s.run [op] = s.applyOp op := by
+  unfold FSA.run FSA.run
+  cases s.applyOp op <;> rfl
+
+/-- running `a` and then `b` on the result is running `a ++ b`: the step-by-step loop of `runSteps` computes
+`FSA.run` of the whole history (stopping at the first operation that raises) -/
+theorem run_append {V L : Type} [DecidableEq V] [DecidableEq L] (s : FSA V L) (a b : List (FSA.Op V L)) :
+    s.run (a ++ b) = (s.run a).bind fun s' => s'.run b := by
+  induction a generalizing s with
+  | nil => rfl
+  | cons op a ih =>
+    simp only [List.cons_append, FSA.run]
+    cases s.applyOp op with
+    | error e => rfl
+    | ok s' => exact ih s'
+
+/-- one step of a recorded history: `FSA.run` on the one-operation history (`run_single`, `run_append`) -/
+def stepOf (s : A) (j : Json) : R A := do lift (s.run [← opOf j])
 
 def runSteps : A → List Json → List Json → List Json
   | _, [], acc => acc.reverse
@@ -123,9 +142,18 @@ def runOp (j : Json) : R Json := do
   return .arr (runSteps s ops.toList [viewsTo Json.str s]).toArray
 
 /-- run a history without recording -/
-def runQuiet : A → List Json → R A
-  | s, [] => pure s
-  | s, j :: js => do runQuiet (← stepOf s j) js
+def runQuiet (s : A) (js : List Json) : R A := do lift (s.run (← js.mapM opOf))
 
-def ops : List (String × Handler) := [("c09.run", runOp)]
+/-- `{"op":"c09.edges","init":{…},"ops":[…]}` → the public edge enumerations of the automaton after the history:
+`edges(with_labels=True)` (label view), all `edges_out(v)` (outgoing view), all `edges_in(w)` (incoming view), each
+edge as `[tail, head, label]` like the Python tuples, and `vertices()` -/
+def edgesOp (j : Json) : R Json := do
+  let s ← initOf (← field j "init")
+  let ops ← arr (fieldD j "ops" (.arr #[]))
+  let s ← runQuiet s ops.toList
+  let tr (e : Vx × String × Vx) : Json := .arr #[vxTo e.1, vxTo e.2.2, .str e.2.1]
+  return Json.mkObj [("vertices", ofList vxTo s.vertices), ("g", ofList tr s.edgesG),
+    ("o", ofList tr s.edgesO), ("i", ofList tr s.edgesI)]
+
+def ops : List (String × Handler) := [("c09.run", runOp), ("c09.edges", edgesOp)]
 end GT.Driver.C09
